@@ -178,13 +178,13 @@ func indexValue(instr *ssa.Index, x, idx value) value {
 	if !isSym(idx) {
 		return elems[asInt64(idx)]
 	}
-	if !inRange(idx, 0, int64(len(elems))-1) {
+	if !inRangeT(idx, 0, int64(len(elems))-1, instr.Index.Type()) {
 		panic(symRuntimeError{fmt.Sprintf("index out of range [sym] with length %d", len(elems))})
 	}
 	if isScalarType(et) {
-		return selectElem(elems, idxTerm(idx), et)
+		return selectElem(elems, idxTermT(idx, instr.Index.Type()), et)
 	}
-	return elems[concInt(idx, "index")]
+	return elems[concIntT(idx, instr.Index.Type(), "index")]
 }
 
 // allocSize concretises an allocation size, reporting sizes the input can push beyond the limit.
@@ -312,10 +312,10 @@ func lookupSym(fr *frame, instr *ssa.Lookup, x, idx value) value {
 		if !isSym(idx) {
 			return bs[asInt64(idx)]
 		}
-		if !inRange(idx, 0, int64(len(bs))-1) {
+		if !inRangeT(idx, 0, int64(len(bs))-1, instr.Index.Type()) {
 			panic(symRuntimeError{fmt.Sprintf("index out of range [sym] with length %d", len(bs))})
 		}
-		return selectElem(bs, idxTerm(idx), types.Typ[types.Uint8])
+		return selectElem(bs, idxTermT(idx, instr.Index.Type()), types.Typ[types.Uint8])
 	case map[value]value:
 		if keyHasSym(idx) || mapHasSymKeys(m) {
 			mt := instr.X.Type().Underlying().(*types.Map)
